@@ -210,6 +210,11 @@ def main(ctx):
         ctx.check({'kind': 'roundtrip', 'msgs': [], 'fmt': fmt})
         huge = {'type': 'sysex', 'data': [(i * 31) % 128 for i in range(100000)], 'time': 0}
         ctx.check({'kind': 'roundtrip', 'msgs': [huge, {'type': 'sysex', 'data': [1], 'time': 0}], 'fmt': fmt}, sample=False)
+        # a dump of well over 1 MiB of text (many medium messages, and one long one)
+        bank = [{'type': 'sysex', 'data': [(i + j) % 128 for j in range(4093)], 'time': 0} for i in range(100)]
+        ctx.check({'kind': 'roundtrip', 'msgs': bank, 'fmt': fmt}, sample=False)
+        ctx.check({'kind': 'roundtrip', 'msgs': [{'type': 'sysex', 'data': [(i * 7) % 128 for i in range(400001)], 'time': 0},
+                                                 {'type': 'sysex', 'data': [2], 'time': 0}], 'fmt': fmt}, sample=False)
         for ln in range(0, 8):
             one = {'type': 'sysex', 'data': list(range(ln)), 'time': 0}
             ctx.check({'kind': 'roundtrip', 'msgs': [one], 'fmt': fmt}, sample=False)
